@@ -1,9 +1,26 @@
 import Drivers.Proto
-/-! Model driver for property C08 (stub: no model operations registered yet). -/
-open Lean Proto
+import St4sd.Model.TreeJson
+/-! Model driver for property C08 (configuration interface with cache): one history per line. -/
+open Lean Proto St4sd.Tree
+
+def labelText (l : Label) : String :=
+  "component:" ++ String.ofList (labelTail l)
 
 def handle (j : Json) : Except String Json := do
   let op ← getStr j "op"
-  throw s!"unknown op {op}"
+  match op with
+  | "run" =>
+    let d ← descOfJson (← j.getObjVal? "desc")
+    let fuel ← getNat j "fuel"
+    let ops ← (← getArr j "ops").mapM opOfJson
+    let (s, answers) := run fuel (init d) ops
+    return jobj [("answers", jarr (answers.map jsonOfResult)),
+                 ("cache", jarr (s.cache.map (fun e => jstr (labelText e.1))))]
+  | "invalidates" =>
+    let i ← getNat j "stage"
+    let n ← getChars j "name"
+    let l : Label := ⟨← getChars j "lplatform", ← getNat j "lstage", ← getChars j "lname"⟩
+    return jobj [("fixed", jbool (invalidates i n l)), ("old", jbool (invalidatesOld i n l))]
+  | _ => throw s!"unknown op {op}"
 
 def main : IO Unit := serve handle
